@@ -27,7 +27,7 @@ from WallGo.exceptions import WallGoError
 from symx import axioms, core, diff, npx
 from symx.core import AND, OR, NOT, Cond, Sym, eq, ge, gt, le, lt, ne
 from symx.harness import HarnessDef, bare
-from props.hydrokit import ScipyStubs, tolerance_claims
+from props.hydrokit import ScipyStubs, tolerance_claims, replaying
 from props.c02 import h_deflag as _h_deflag, make_hydro, arctan_axioms
 
 EXPLANATION = __doc__
@@ -54,7 +54,7 @@ class _Captured(Exception):
     pass
 
 
-def h_jouguet(h, part):
+def h_jouguet(h, part, cut=False):
     hy, th, st = make_hydro(h, stubs=ScipyStubs(h, nondet_converged=False))
     closure = {}
     real_rs = st.root_scalar
@@ -66,7 +66,9 @@ def h_jouguet(h, part):
             raise _Captured()
         return real_rs(f, *a, **k)
     HY.root_scalar = rs
-    hy.TMaxLowT = h.real("TMaxLowT", 0.01, 1e4, default=3.0)
+    # cut: the tabulated low-T range ends below the Chapman-Jouguet temperature (ranges that cut the
+    # window short are part of the quantifier); the default point of this case is such a range
+    hy.TMaxLowT = h.real("TMaxLowT", 0.01, 1e4, default=1.02 if cut else 3.0)
     Tn = hy.Tnucl
     pH, eH = th.pHighT(Tn), th.eHighT(Tn)
     if part == "closure":
@@ -114,6 +116,13 @@ def h_jouguet(h, part):
     try:
         vJ = hy.findJouguetVelocity()
     except WallGoError:
+        # (Hydrodynamics.__init__ swallows this error and silently substitutes the template model's
+        # approximate vJ.)  The root-finder stub always converges: the Chapman-Jouguet root exists, so
+        # there is nothing to give up on -- wherever it lies relative to the tabulated low-T range
+        if h.symbolic or any(k.startswith("root#") for k in h.values) or (h.mode == "conc" and h.use_defaults):
+            # (plain floats at the default point: the real scipy converges there on the healthy tree)
+            h.prove("a converged Chapman-Jouguet root is used, not discarded in favour of the template value",
+                    Cond(b=False))
         return
     vJ = core.unbox(np.asarray(vJ))
     tm = st.last_root
@@ -267,7 +276,7 @@ def h_classify(h):
 AX = [arctan_axioms, axioms.pow_axioms]
 
 HARNESSES = [
-    HarnessDef("jouguet-general", h_jouguet, [dict(part="closure"), dict(part="result")], max_paths=60,
+    HarnessDef("jouguet-general", h_jouguet, [dict(part="closure"), dict(part="result"), dict(part="result", cut=True)], max_paths=60,
                timeout_s=30, axioms=AX, encodes=[HY.Hydrodynamics.findJouguetVelocity],
                random_validation=1, concrete_alarms=False, feas_timeout_ms=200),
     HarnessDef("jouguet-template", h_template_vj, [dict()], max_paths=20, timeout_s=120,
